@@ -31,6 +31,10 @@ def profiles_for(pid, tier):
         edge.append(profile("woi-lru-evictall", "woi", algo="lru", memcap=9, max_steps=d - 1, hash={1: 5, 2: 6, 3: 7}))
         edge.append(profile("woe-s3fifo-evictall", "woe", algo="s3fifo", memcap=9, max_steps=d - 1))
         edge.append(profile("woe-nolog", "woe", tomblog=False, max_steps=d - 1, ops=["ins", "get", "evict_all", "hold", "gate", "close"]))
+        # narrow alphabet, deep: one key (and a colliding one) through queue / flush / index windows
+        for pol in ("woe", "woi"):
+            edge.append(profile(f"{pol}-1key-deep", pol, keys=[1, 2], hash={1: 5, 2: 5}, keyloc={1: "default", 2: "default"},
+                                ops=["ins", "rem", "get", "evict_all", "hold"], max_steps=d + 2, max_ins=2))
     elif pid == "C12":
         locs = {1: "default", 2: "inmem", 3: "ondisk"}
         h = {1: 5, 2: 6, 3: 7}
@@ -42,14 +46,18 @@ def profiles_for(pid, tier):
         edge.append(profile("woe-lfu-advice", "woe", algo="lfu", memcap=9, keyloc=locs, hash=h, ops=ops, max_steps=d - 1))
         edge.append(profile("woi-sieve-advice", "woi", algo="sieve", memcap=9, keyloc=locs, hash=h, ops=ops, max_steps=d - 1))
     elif pid == "C15":
-        ops = ["ins", "rem", "get", "evict_all", "close"]
         h = {1: 5, 2: 6, 3: 7}
         for pol in ("woe", "woi"):
-            edge.append(profile(f"{pol}-close", pol, hash=h, ops=ops, max_steps=d + 1, max_ins=4,
-                                keyloc={1: "default", 2: "default", 3: "inmem"}))
-            edge.append(profile(f"{pol}-close-noflush", pol, hash=h, ops=ops, max_steps=d, max_ins=3,
-                                flush_on_close=False))
-        edge.append(profile("woe-lru-close", "woe", algo="lru", memcap=9, hash=h, ops=ops, max_steps=d))
+            # deep, narrow: written once, updated while resident, closed, reopened, read
+            edge.append(profile(f"{pol}-close-deep", pol, keys=[1, 2], hash={1: 5, 2: 6},
+                                keyloc={1: "default", 2: "inmem"}, ops=["ins", "get", "evict_all", "close"],
+                                max_steps=d + 1, max_ins=3))
+            edge.append(profile(f"{pol}-close", pol, hash=h, ops=["ins", "rem", "get", "evict_all", "close"],
+                                max_steps=d, max_ins=3, keyloc={1: "default", 2: "default", 3: "inmem"}))
+            edge.append(profile(f"{pol}-close-noflush", pol, hash=h, ops=["ins", "get", "evict_all", "close"],
+                                max_steps=d, max_ins=3, flush_on_close=False))
+        edge.append(profile("woe-lru-close", "woe", algo="lru", memcap=9, hash=h,
+                            ops=["ins", "get", "evict_all", "close"], max_steps=d))
     elif pid == "C17":
         ops = ["ins", "rem", "get", "fetch", "evict_all", "hold", "close"]
         for pol in ("woe", "woi"):
@@ -96,7 +104,7 @@ def replay_scripts(d, p, scripts, tag, sample, threads=8):
     cfg, hcfg = harness_cfgs(d, p)
     core.run_harness(["hybrid-replay", "--cfg", cfg, "--hcfg", hcfg, "--scripts", scripts, "--out", res,
                       "--trace", trace, "--trace-sample", str(sample), "--threads", str(threads),
-                      "--prop-fields", "res,enq"], timeout=3000)
+                      "--prop-fields", "res,enq,wr"], timeout=3000)
     with open(res) as f:
         return json.load(f), trace
 
@@ -315,3 +323,39 @@ def replay(pid, path):
         return 1
     print("replay: the recorded script no longer violates the property")
     return 0
+
+
+def check_c17(tier):
+    """C17 = memory part (MemCache with colliding hashes) + disk part (Hybrid with colliding hashes); one
+    evidence file covering both."""
+    from . import memcheck
+    t0 = time.time()
+    core.build_harness()
+    base = core.work_dir(f"C17-{tier}")
+    results, violations, samples = [], [], []
+    medge, msim = memcheck.profiles_for("C17", tier)
+    hedge, hrand = profiles_for("C17", tier)
+    with cf.ThreadPoolExecutor(max_workers=4) as ex:
+        futs = [(ex.submit(memcheck.run_profile, "C17", tier, p, kind, base, core.seed(), 3), "mem")
+                for p, kind in [(p, "edge") for p in medge] + [(p, "rand") for p in msim]]
+        futs += [(ex.submit(run_profile, "C17", tier, p, kind, base, core.seed()), "hybrid")
+                 for p, kind in [(p, "edge") for p in hedge] + [(p, "rand") for p in hrand]]
+        for f, eng in futs:
+            out, vs, sample = f.result()
+            out["engine"] = eng
+            for v in vs:
+                v["engine"] = eng
+            results.append(out)
+            violations += vs
+            if sample and len(samples) < 4:
+                samples.append(sample)
+            core.log(json.dumps(out))
+    return memcheck.finish("C17", tier, t0, results, violations, samples, rule=(
+        "memory part: edges of bounded MC_MemCache models with non-injective Hash (full collisions and same-shard "
+        "collisions) replayed on a Cache built with a colliding user hasher, plus random runs validated by TLC "
+        "(Trace_MemCache, Trace_MemDiag tag C17.foreign_value); disk part: edges of bounded MC_Hybrid models whose "
+        "keys share one 64-bit hash (the disk index is by hash alone) replayed on a real HybridCache, plus random "
+        "driver scripts, validated by TLC (Trace_Hybrid tag C17.foreign_value: a lookup answered with another "
+        "key's value); non-trivial as in C05 / C01"), assumptions=[
+        "exhaustive only for the small constants of each profile",
+        "disk part without block reclaim"], engine="mixed")
